@@ -92,7 +92,7 @@ def run(run):
     specs = [[None], [None, None]]
     specs += [["'", None, "'"], ['"', None, '"'], ['`', None, '`'], ["'", None, None], ['"', None, None], ['`', None, None], ['a', None, None], [None, 'a', None], ['1', None, None], ['-', None, None],
               ['[', None, None], [None, None, '='], ['`', '"', None, '"', '`'], ['"', '\\', None, '"'], ["'", '\\', None, "'"], ['`', '\\', None, '`'],
-              ['2', '1', '4', '7', '4', '8', '3', '6', D, D], ['-', '2', '1', '4', '7', '4', '8', '3', '6', D, D], [D, D, D, D, D, D, D, D, D, D, D], ['-', D, D, D, D, D, D, D, D, D, D]]
+              ['2', '1', '4', '7', '4', '8', '3', '6', D, D], ['-', '2', '1', '4', '7', '4', '8', '3', '6', D, D], [D, D, D, D, D, D, D, D, D, D, D], ['-', D, D, D], ['-', '9', D, D, D, D, D, D, D, D, D]]
     if not quick: specs += [[None, None, None], ["'", None, None, "'"], ['"', None, None, '"'], ['`', None, None, '`'], ['`', None, None, None], ['a', None, None, None]]
     run.bounds['lexer'] = ('every string of <= ' + ('2' if quick else '3') + ' Unicode scalar values (all of Unicode per position); delimited forms with 1' + ('' if quick else '-2') + ' symbolic characters between quotes/backticks, '
                            'unterminated forms, backslash-escape forms; digit runs of 10-11 symbolic digits around the i32 boundary, with and without a leading minus')
